@@ -16,6 +16,18 @@ CHECKS = {
              'enumeration of the quantifier domain, so for the member table as installed the verdict is exact.',
         note='Trusts Python comparison dispatch and the TlsVersion table of cryptodatahub as installed in /venv.',
         design='3 (C17)'),
+    'C11': dict(
+        technique='exhaustive enumeration of 16-bit (thorough: 24-bit) integers per width x byte order plus seeded '
+                  'boundary/random generation, against Python big-integer arithmetic, an RFC 4251 mpint encoder '
+                  'and epoch arithmetic; the machine TZ is varied in-process (metamorphic: TZ must not matter)',
+        text='Integers: complete enumeration of 0..65535 for every width/byte order (all 2^24 three-byte values '
+             'in the thorough tier) and generated out-of-range values; flags: all subsets of the small flag enums, '
+             'all 8/16-bit raw words; mpints: generated integers up to 4096 bits around byte and word boundaries, '
+             'both signs for SSH; timestamps: generated instants dense around UTC-offset transitions under 24 '
+             '(thorough: ~600) TZ settings. Exact on the enumerated parts, sampling elsewhere.',
+        note='Oracle is int.to_bytes/from_bytes, a 6-line RFC 4251 encoder and epoch arithmetic; trusts '
+             'time.tzset() and the system tzdata to switch the machine zone in-process.',
+        design='3 (C11)'),
 }
 
 NOT_YET = {}
